@@ -88,12 +88,15 @@ def build_harness():
             "num": os.path.join(out, "num"), "econftool": os.path.join(out, "econftool"), "hash": hsh}
 
 
-def lake_build(targets):
-    """lake build of the given targets (serialised); returns (ok, output)."""
+def lake_build(targets, pre=None):
+    """lake build of the given targets (serialised); `pre` (e.g. the fact extractor, which rewrites
+    Generated/Facts.lean) runs under the same lock; returns (ok, output)."""
     os.makedirs(BUILD, exist_ok=True)
     lock = open(os.path.join(BUILD, ".lake.lock"), "w")
     fcntl.flock(lock, fcntl.LOCK_EX)
     try:
+        if pre is not None:
+            pre()
         rc, out = _run(["lake", "build"] + list(targets), cwd=LEAN)
     finally:
         fcntl.flock(lock, fcntl.LOCK_UN)
